@@ -35,3 +35,20 @@ Proof. cbn [x_unwrap code exec_unwrap]. unfold unwrap. destruct (o_attr (get_obj
 (* the attribute the extractor reads is the one the runtime writes *)
 Lemma attr_name : x_attr code = "__deal_contract"%string.
 Proof. reflexivity. Qed.
+
+(* ---- the fuel of the model is not a truncation: for a __wrapped__ chain of length n (acyclic: it ends), S n steps report everything
+   and more fuel changes nothing. (On a cyclic chain -- f.__wrapped__ = f -- the real loop does not terminate; the model then returns a
+   prefix. See DESIGN 9.7.) ---- *)
+Inductive chain_len (h : heap) : nat -> nat -> Prop :=
+| chain_end f : o_wrapped (get_obj h f) = None -> chain_len h f 0
+| chain_step f w n : o_wrapped (get_obj h f) = Some w -> chain_len h w n -> chain_len h f (S n).
+Theorem fuel_adequate h f n : chain_len h f n -> forall k seen, get_contracts (S n + k) h f seen = get_contracts (S n) h f seen.
+Proof.
+  induction 1 as [f Hw|f w n Hw Hc IH]; intros k seen.
+  - cbn [plus get_contracts]. rewrite Hw. reflexivity.
+  - change (S (S n) + k) with (S (S n + k)). cbn [get_contracts]. rewrite Hw.
+    destruct (o_attr (get_obj h f)) as [r|]; [destruct (existsb (Nat.eqb r) seen)|]; rewrite IH; reflexivity.
+Qed.
+Corollary code_fuel_adequate h f n : chain_len h f n -> forall k seen,
+  exec_get_contracts (S n + k) (x_loop code) h f seen = exec_get_contracts (S n) (x_loop code) h f seen.
+Proof. intros Hc k seen. rewrite !exec_get_contracts_is_get_contracts. apply fuel_adequate. exact Hc. Qed.
